@@ -916,8 +916,41 @@ def ground_script(name, what, claim):
     return run
 
 
+def ground_solver_names():
+    """the command run for `--solver NAME` is NAME's own (binary + NAME's arguments), whatever other names were resolved before it in the process:
+    several names share a binary and differ only in their arguments (cvc5 / cvc5-int, bitwuzla / bitwuzla-abs, yices / yices-x.y.z).
+    Evaluated on the real get_solver_command with the binary lookup replaced by a recorder (no download), every ordered pair of names"""
+    import itertools
+
+    import halmos.solvers as hsv
+
+    names = list(hsv.SOLVERS)
+    real = hsv.ensure_solver_available
+    hsv.ensure_solver_available = lambda info: f"/fake/bin/{info.binary_name}"
+    bad, n = [], 0
+    try:
+        for a, b in itertools.permutations(names, 2):
+            n += 1
+            for fn_name in ("cache_clear",):
+                f = getattr(hsv.get_solver_command, fn_name, None)
+                if f:
+                    f()
+            for attr in list(vars(hsv)):
+                v = getattr(hsv, attr)
+                if isinstance(v, dict) and attr.startswith("_") and attr not in ("__builtins__",) and not attr.startswith("__"):
+                    v.clear()  # (a fresh process for every pair)
+            hsv.get_solver_command(a)
+            got = hsv.get_solver_command(b)
+            want = [f"/fake/bin/{hsv.SOLVERS[b].binary_name}"] + list(hsv.SOLVERS[b].arguments)
+            if got != want and len(bad) < 3:
+                bad.append((a, b, got, want))
+    finally:
+        hsv.ensure_solver_available = real
+    return [(f"get_solver_command(NAME) is NAME's binary with NAME's arguments after any other name was resolved ({n} ordered pairs of the {len(names)} supported names)", not bad, str(bad[:2])[:400])]
+
+
 def grounds():
-    return [Ground(f"{PROP}/config.generated-file#strings", ground_script("generated_toml_strings.py", "python -m halmos.config with string options holding backslashes and quotes", "the generated config file gives back every plain string option as it was given (backslashes, quotes, regular expressions, Windows paths)"), sources=("halmos.config:main",)), Ground(f"{PROP}/__main__.mk_solver#timeout", ground_script("branching_timeout_edges.py", "--solver-timeout-branching below 1ms and at / above 2**32 ms", "the branching timeout handed to z3 is `none` exactly for a configured 0, and a positive duration never turns into `none` or a wrapped-around value"), sources=("halmos.__main__:mk_solver",)), Ground(f"{PROP}/config.malformed-values", ground_malformed_values, sources=("halmos.config:ParseTimeout.parse", "halmos.config:ParseErrorCodes.parse", "halmos.config:ParseCSVInt.parse", "halmos.config:TomlParser.parse_dict")), Ground(f"{PROP}/config.parse_csv#family", ground_csv_family, sources=("halmos.config:parse_csv", "halmos.config:ParseCSVInt.parse", "halmos.config:ParseCSVInt.unparse", "halmos.config:ParseArrayLengths.parse", "halmos.config:ParseArrayLengths.unparse")), Ground(f"{PROP}/config.Config.resolved_solver_command#stacks", ground_solver_stacks, sources=("halmos.config:Config.resolved_solver_command", "halmos.config:Config.__getattribute__")), Ground(f"{PROP}/config.arg_parser#not-given-is-None", ground_parser_defaults, sources=("halmos.config:_create_arg_parser",))]
+    return [Ground(f"{PROP}/solvers.get_solver_command#per-name", ground_solver_names, sources=("halmos.solvers:get_solver_command",)), Ground(f"{PROP}/config.generated-file#strings", ground_script("generated_toml_strings.py", "python -m halmos.config with string options holding backslashes and quotes", "the generated config file gives back every plain string option as it was given (backslashes, quotes, regular expressions, Windows paths)"), sources=("halmos.config:main",)), Ground(f"{PROP}/__main__.mk_solver#timeout", ground_script("branching_timeout_edges.py", "--solver-timeout-branching below 1ms and at / above 2**32 ms", "the branching timeout handed to z3 is `none` exactly for a configured 0, and a positive duration never turns into `none` or a wrapped-around value"), sources=("halmos.__main__:mk_solver",)), Ground(f"{PROP}/config.malformed-values", ground_malformed_values, sources=("halmos.config:ParseTimeout.parse", "halmos.config:ParseErrorCodes.parse", "halmos.config:ParseCSVInt.parse", "halmos.config:TomlParser.parse_dict")), Ground(f"{PROP}/config.parse_csv#family", ground_csv_family, sources=("halmos.config:parse_csv", "halmos.config:ParseCSVInt.parse", "halmos.config:ParseCSVInt.unparse", "halmos.config:ParseArrayLengths.parse", "halmos.config:ParseArrayLengths.unparse")), Ground(f"{PROP}/config.Config.resolved_solver_command#stacks", ground_solver_stacks, sources=("halmos.config:Config.resolved_solver_command", "halmos.config:Config.__getattribute__")), Ground(f"{PROP}/config.arg_parser#not-given-is-None", ground_parser_defaults, sources=("halmos.config:_create_arg_parser",))]
 
 
 def bounded():
